@@ -135,7 +135,7 @@ NameOf(zz, mids) == JoinWith(<<zz>> \o mids \o <<t_csv>>, <<DOT>>)
 InDir(d, n) == IF d = <<>> THEN n ELSE d \o <<SLASH>> \o n
 Sl(mf, id, sw, hw) == <<10, mf>> \o id \o sw \o hw
 BaseSl == Sl(181, x_BAI00, <<1, 2>>, <<3, 4>>)     \* Vaillant BAI00 SW 0102 HW 0304
-World(fam, addr, has, sl, ents) == [t |-> "sel", fam |-> fam, addr |-> addr, has |-> has, sl |-> sl, ents |-> ents]
+World(fam, addr, has, sl, ents) == [t |-> "sel", addr |-> addr, has |-> has, sl |-> sl, ents |-> ents]
 Ents(E) == SetToSeq(E)
 Files(dir, NS, kind) == {<<InDir(dir, n), kind>> : n \in NS}
 UpTo2(S) == {{a, b} : a \in S, b \in S}
